@@ -24,12 +24,13 @@ RULE = (
 REAL = ["rdflib.collection.Collection", "rdflib.graph.Graph.items/value", "rdflib.plugins.stores.memory.Memory"]
 STUB = []
 ASSUMPTIONS = [
-    "negative indices are not generated (the statement does not speak of them)",
+    "negative indices count from the end as in a list (-len <= i < len), anything else raises IndexError",
+    "c += iterable that raises: the exception propagates and the list holds either the members handed out before the error (what a list does) or none of them; the chain must be well formed either way",
     "index() of an absent member must raise (any exception type); IndexError is demanded exactly where list raises IndexError",
     "after an injected chain corruption only reads are issued; len/list on a cyclic chain must raise, every read must finish within the line-event budget",
     "an empty list is a head node that carries no rdf:first/rdf:rest triple",
 ]
-PROBES = ["delete-head", "delete-only", "delete-last", "delete-middle", "falsy-member-read", "index-one-past", "append-after-clear", "fault-cycle", "fault-no-rest", "fault-two-rests", "fault-no-first", "duplicate-member", "two-collection-handles"]
+PROBES = ["negative-index", "iadd-self", "benign-subscriber", "delete-head", "delete-only", "delete-last", "delete-middle", "falsy-member-read", "index-one-past", "append-after-clear", "fault-cycle", "fault-no-rest", "fault-two-rests", "fault-no-first", "duplicate-member", "two-collection-handles"]
 KNOWN_PREDICATES = {
     # c[len(c)] = v does not raise: it writes (rdf:nil rdf:first v) (or, on an empty list, a head cell without rdf:rest)
     "C19-setitem-one-past-the-end-writes": lambda f: f.get("i") == f.get("n") and f.get("raised") is False,
@@ -76,6 +77,8 @@ def generate(seed, tier):
         # where the list lives and through how many Collection objects it is driven
         "graph": g.choice(["graph", "graph", "dataset-default", "dataset-named", "conjunctive"]),
         "handles": g.choice([1, 1, 2]),
+        # a store-level subscriber that only counts additions (legal configuration, must change nothing)
+        "subscriber": g.chance(0.2),
     }
     w = {"append": g.choice([1, 3]), "iadd": g.choice([0, 1]), "set": g.choice([1, 2]), "del": g.choice([1, 3, 5]), "clear": g.choice([0, 1]), "read": g.choice([2, 4])}
     fault_at = g.randrange(nsteps) if g.chance(0.35) else None
@@ -96,6 +99,14 @@ def generate(seed, tier):
         elif kind == "iadd":
             op["vs"] = [g.pick(vals) for _ in range(g.randint(0, 3))]
             n += len(op["vs"])
+            r = g.random()
+            if r < 0.12:
+                op["self"] = True  # c += c (or += the other handle on the same list): a list doubles
+                n += n - len(op["vs"])
+                op["vs"] = []
+            elif r < 0.3 and op["vs"]:
+                op["die"] = g.randrange(len(op["vs"]) + 1)  # fault: the iterable raises OSError after handing out that many members
+                n -= len(op["vs"]) - op["die"]  # estimate only: a list keeps the members handed out before the error
         elif kind == "set":
             # one-past-the-end assignment is a listed known finding that corrupts the graph and ends the run: keep it rare
             op["v"] = g.pick(vals)
@@ -104,16 +115,20 @@ def generate(seed, tier):
                 n += 1
             else:
                 op["i"] = n if (n == 0 or g.chance(0.06)) else g.randrange(n)
+                if n and g.chance(0.15):
+                    op["i"] = -g.randint(1, n + 1)
         elif kind == "del":
             op["i"] = g.choice([0, 0, max(n - 1, 0), n] + list(range(n + 1)))
-            if op["i"] < n:
+            if g.chance(0.15):
+                op["i"] = -g.randint(1, n + 1)
+            if -n <= op["i"] < n:
                 n -= 1
         elif kind == "clear":
             n = 0
         else:
             op["k"] = g.choice(["len", "list", "get", "get", "index", "in"])
             if op["k"] == "get":
-                op["i"] = g.randint(0, n + 1)
+                op["i"] = g.randint(0, n + 1) if g.chance(0.8) else -g.randint(1, n + 2)
             if op["k"] in ("index", "in"):
                 op["v"] = g.pick(VALUES)
         ops.append(op)
@@ -172,6 +187,12 @@ def execute(trace, ctx):
             g.add((cells[i], RDF.rest, cells[i + 1] if i + 1 < len(cfg["init"]) else RDF.nil))
         c = Collection(g, head)
     # a second Collection object on the same head, over another Graph object on the same data
+    if cfg.get("subscriber"):
+        from rdflib.store import TripleAddedEvent
+
+        seen_adds = []
+        g.store.dispatcher.subscribe(TripleAddedEvent, lambda ev: seen_adds.append(1))
+        ctx.probe("benign-subscriber")
     c_alt = Collection(g_alt, head)
     handles = [c, c_alt] if cfg.get("handles", 1) == 2 else [c, c]
     if cfg.get("handles", 1) == 2:
@@ -296,16 +317,48 @@ def execute(trace, ctx):
             ctx.probe("effective-mutation")
         elif k == "iadd":
             c2 = c
-            c2 += [T(v) for v in op["vs"]]
+            if op.get("self"):
+                ctx.probe("iadd-self")
+                src = c if op["h"] == 0 else handles[1 - handles.index(c)] if handles[0] is not handles[1] else c
+                with ctx.budget(READ_BUDGET * 4, "iadd-self"):
+                    try:
+                        c2 += src
+                    except StepBudgetExceeded:
+                        ctx.deviation("C19.iadd-self-loops", f"c += c on a list of length {n} did not finish within {READ_BUDGET * 4} line events (a Python list doubles)")
+                        raise KnownStop()
+                model.extend(list(model))
+            elif "die" in op:
+                ctx.fault("iterable-raised")
+
+                def dying(vs=op["vs"], k=op["die"]):
+                    for v in vs[:k]:
+                        yield T(v)
+                    raise OSError("iterable died")
+
+                try:
+                    c2 += dying()
+                    ctx.deviation("C19.iadd-swallowed", "+= of an iterable that raises OSError did not raise")
+                except OSError:
+                    pass
+                # a list keeps the members handed out before the error; keeping none of them is accepted too, anything else is not
+                got_now = [key(x) for x in g.items(head)] if (head, RDF.first, None) in g or model else []
+                full = model + [skey(v) for v in op["vs"][: op["die"]]]
+                if got_now == full:
+                    model.extend(skey(v) for v in op["vs"][: op["die"]])
+                # else: model unchanged; chain_check below compares the chain with it
+            else:
+                c2 += [T(v) for v in op["vs"]]
+                model.extend(skey(v) for v in op["vs"])
             ctx.check(c2 is c, "C19.iadd-identity", "+= returned another object")
-            model.extend(skey(v) for v in op["vs"])
-            if op["vs"]:
+            if op["vs"] or op.get("self"):
                 ctx.probe("effective-mutation")
         elif k == "set":
             i = op["i"]
-            exp_err = i >= n
+            exp_err = not (-n <= i < n)
             if i == n:
                 ctx.probe("index-one-past")
+            if i < 0:
+                ctx.probe("negative-index")
             try:
                 c[i] = T(op["v"])
                 got_err = None
@@ -321,9 +374,11 @@ def execute(trace, ctx):
                 ctx.probe("effective-mutation")
         elif k == "del":
             i = op["i"]
-            exp_err = i >= n
+            exp_err = not (-n <= i < n)
+            if i < 0:
+                ctx.probe("negative-index")
             if not exp_err:
-                ctx.probe("delete-only" if n == 1 else "delete-head" if i == 0 else "delete-last" if i == n - 1 else "delete-middle")
+                ctx.probe("delete-only" if n == 1 else "delete-head" if i % n == 0 else "delete-last" if i % n == n - 1 else "delete-middle")
             try:
                 del c[i]
                 got_err = None
@@ -347,7 +402,9 @@ def execute(trace, ctx):
                 ctx.check(r == ("ok", model), "C19.list", lambda: f"list(c) -> {r}, model {model}")
             elif k == "get":
                 i = op["i"]
-                if i < n:
+                if i < 0:
+                    ctx.probe("negative-index")
+                if -n <= i < n:
                     if not T(list(model[i])):
                         ctx.probe("falsy-member-read")
                     ctx.check(r == ("ok", model[i]), "C19.getitem", lambda: f"c[{i}] -> {r}, model {model[i]}", i=i, n=n, member=model[i])
